@@ -35,18 +35,21 @@ type specExpr struct {
 }
 
 type Contract struct {
-	Key        string // package-local key as written
-	Full       string // ssa function name
-	Props      []string
-	Requires   []*Clause
-	Ensures    []*Clause
-	Invs       []*Clause
-	Assigns    []ast.Expr
-	HasAssign  bool
-	PureFrame  bool                // assigns nothing
-	Trusted    bool                // contract is assumed, not verified (must be listed in evidence)
-	Inline     bool                // verified on its own, but callers inline the body
-	SeqMode    bool                // obligations of this function are discharged with byte strings as SMT sequences
+	Peel                map[int]bool // loops (by ordinal) whose first iteration is executed before the cut
+	Key                 string       // package-local key as written
+	Full                string       // ssa function name
+	Props               []string
+	Requires            []*Clause
+	Ensures             []*Clause
+	Invs                []*Clause
+	Assigns             []ast.Expr
+	HasAssign           bool
+	PureFrame           bool // assigns nothing
+	Trusted             bool // contract is assumed, not verified (must be listed in evidence)
+	Inline              bool // verified on its own, but callers inline the body
+	SeqMode             bool // obligations of this function are discharged with byte strings as SMT sequences
+	EstablishesGraphInv bool // the function inserts unchecked vertices and validates them afterwards (LoadDag): the
+	// "stored amounts are canonical" invariant is not assumed when it reads vertices back from the graph
 	Callbacks  map[string]bool     // function-typed parameters declared `callback p assigns nothing` (callback frame)
 	Mode       string              // "interference": verified with other goroutines allowed to change shared stores between calls
 	Discipline map[string][]string // ghost protocol disciplines checked on this function: name -> props
@@ -488,6 +491,8 @@ func (db *SpecDB) LoadSpecFile(path, pkgPath string) {
 			cur.Inline = true
 		case word == "seqmode":
 			cur.SeqMode = true
+		case word == "establishes-graph-invariant":
+			cur.EstablishesGraphInv = true
 		case word == "callback":
 			// callback <param> assigns nothing: calls through this function-typed parameter do not write memory that
 			// is reachable from the other arguments (assumed when the function is verified, checked where it is called)
@@ -592,8 +597,17 @@ func (db *SpecDB) LoadSpecFile(path, pkgPath string) {
 			if i := strings.IndexAny(rest, " \t"); i >= 0 {
 				w2, r2 = rest[:i], strings.TrimSpace(rest[i+1:])
 			}
+			if w2 == "peel" {
+				// loop#k peel: the first iteration is executed from the state before the loop (a range over a map
+				// that is known to be non-empty then yields an element); the loop is cut at the second arrival
+				if cur.Peel == nil {
+					cur.Peel = map[int]bool{}
+				}
+				cur.Peel[n] = true
+				continue
+			}
 			if w2 != "invariant" {
-				fail("expected 'invariant'")
+				fail("expected 'invariant' or 'peel'")
 				continue
 			}
 			props, label, body := parseTag(r2)
@@ -1288,6 +1302,32 @@ func (e *Env) call(n *ast.CallExpr) Value {
 			return e.fail("sameobj needs two pointers")
 		}
 		return BoolC(a.Obj != nil && a.Obj == b.Obj)
+	case "storesfield":
+		// storesfield(p, "name"): the pointer (second argument of a mem.store event) addresses the field with that name
+		p, ok := e.eval(n.Args[0]).(*PtrV)
+		lit, ok2 := n.Args[1].(*ast.BasicLit)
+		if !ok || !ok2 || p.Obj == nil {
+			return e.fail("storesfield needs (pointer, \"field name\")")
+		}
+		want, _ := strconv.Unquote(lit.Value)
+		t := p.Obj.Typ
+		name := ""
+		for _, pe := range p.Path {
+			switch u := t.Underlying().(type) {
+			case *types.Struct:
+				if pe.Idx == nil && pe.SubN == 0 && pe.Field < u.NumFields() {
+					name = u.Field(pe.Field).Name()
+					t = u.Field(pe.Field).Type()
+					continue
+				}
+			case *types.Array:
+				t = u.Elem()
+			case *types.Slice:
+				t = u.Elem()
+			}
+			name = ""
+		}
+		return BoolC(name == want)
 	case "fileexists", "filecontent":
 		k, ok := e.ex.argTerm(e.st, e.evalBytesArg(n.Args[0]))
 		if !ok || k.Sort != SB {
